@@ -412,6 +412,9 @@ func genC13(r *prng) *plan {
 	for i := 0; i < n; i++ {
 		p.Ops = append(p.Ops, opSpec{K: "offer", N: []int64{int64(r.intn(3)), int64(r.intn(18)), int64(r.intn(3)), int64(r.u64() >> 1)}})
 	}
+	// a third of the runs lose, duplicate and delay packets: offers, transfers and the header lookups the
+	// validator depends on then fail half-way; nothing may be accepted that would not be accepted otherwise
+	p.Cfg["faults"] = int64(r.intn(3) / 2)
 	return p
 }
 
@@ -457,6 +460,11 @@ func runC13(seed uint64) {
 	}
 	st := V.nets["state"]
 	w.runFor(50 * time.Millisecond)
+	if p.cfg("faults") == 1 {
+		w.res.Class = "net-faults"
+		w.net.faultsOn = true
+		w.net.faults = netFaults{MinLatency: 2 * time.Millisecond, Jitter: 40 * time.Millisecond, DropPct: 4, DupPct: 3}
+	}
 
 	type offered struct {
 		key, val []byte
